@@ -372,7 +372,8 @@ class IPAddr (_AddrBase):
       if type(n) is not IPAddr:
         n = IPAddr(n)
 
-    return (self.toUnsigned() & ~((1 << (32-b))-1)) == n.toUnsigned()
+    mask = ~((1 << (32-b))-1)
+    return (self.toUnsigned() & mask) == (n.toUnsigned() & mask)
 
   def get_network (self, netmask_or_bits):
     """
